@@ -433,6 +433,8 @@ class A:
     def leftovers(self, o, f, what):
         """every relation event of f that no clause recognised contradicts `touches nothing else`"""
         n = 0
+        if any(x.func == f.qual for x in o.refuted + o.unknown):
+            return 0        # the function is already reported: events its clauses did not get to are not `extra`
         for ev in self.events(f):
             if not ev.used:
                 n += 1
@@ -1837,6 +1839,886 @@ def subtree_follows(a: A, ctx):
                         ok = False
             if ok:
                 o.site(f, f.node, 'writes only self.__wbs, recurses into self.children')
+    ctx.guarded(o, run)
+
+
+# ====================================================================================================== move
+def _is_facade_list(a: A, f, e):
+    """self._list / self (the facade delegates index / iteration to its list)"""
+    return e is not None and (a.is_self_attr(f, e, LIST) or a.is_self(f, e))
+
+
+def _parse_index(e):
+    """L.index(X) + k  ->  (L, X, k)"""
+    k = 0
+    while isinstance(e, ast.BinOp) and isinstance(e.op, (ast.Add, ast.Sub)):
+        lc, rc = facts.const_num(e.left), facts.const_num(e.right)
+        if rc is not None:
+            k += rc if isinstance(e.op, ast.Add) else -rc
+            e = e.left
+        elif lc is not None and isinstance(e.op, ast.Add):
+            k += lc
+            e = e.right
+        else:
+            return None
+    if isinstance(e, ast.Call) and isinstance(e.func, ast.Attribute) and e.func.attr == 'index' and len(e.args) == 1 and not e.keywords:
+        return e.func.value, e.args[0], k
+    return None
+
+
+def _none_state(atoms, name):
+    """what the path conditions say about `name`: 'set' (not None), 'none', or None"""
+    st = None
+    for at, pol, _ in atoms:
+        if match(f"{name} is not None", at) or match(f"{name}", at):
+            st = 'set' if pol else 'none'
+        elif match(f"{name} is None", at):
+            st = 'none' if pol else 'set'
+    return st
+
+
+def _publish_ok(a: A, o, f, e, what):
+    """the publish callback receives the facade's current list"""
+    c = e.node
+    e.used = True
+    if len(c.args) == 1:
+        v, _, _ = resolve(f, c.args[0], e.cn)
+        if a.is_self_attr(f, v, LIST):
+            return True
+        # a local that was also stored into self._list just before
+        fl = flow_of(f)
+        d = fl.unique_def('self._list', e.cn)
+        if d is not None and d.value is not None and same(a.xp(f, d.value, d.node), a.xp(f, c.args[0], e.cn)):
+            return True
+    o.refute(f, c, c, f"{what}: hands `{src(c.args[0]) if c.args else ''}` to the owner instead of the facade's current list")
+    return False
+
+
+def _reaches_exit_avoiding(cfg, start, avoid_ids):
+    seen, todo = {start.id}, [start]
+    while todo:
+        n = todo.pop()
+        for x in n.succ:
+            if x.id in seen or x.id in avoid_ids:
+                continue
+            if x is cfg.exit:
+                return True
+            seen.add(x.id)
+            todo.append(x)
+    return False
+
+
+@part
+def move_index(a: A, ctx):
+    o = ctx.ob('move_index', 'R8',
+               "_ChildrenList.move: for every task in argument order: remove it, then insert it at index(before) resp. "
+               "index(after) + 1, the index being taken after the removal", floor=2)
+
+    def run(o):
+        f = a.fn('task._ChildrenList.move')
+        what = 'move'
+        cfg = cfg_of(f)
+        B, AF = f.params[2], f.params[3]
+        evs = a.events(f)
+        for e in evs:
+            if e.kind == 'publish':
+                _publish_ok(a, o, f, e, what)
+        ws = [e for e in evs if e.kind == 'write' and e.w.field == LIST and a.is_self(f, e.w.recv)]
+        rems = [e for e in ws if e.w.kind == 'mutate:remove']
+        inss = [e for e in ws if e.w.kind == 'mutate:insert']
+        for e in ws:
+            e.used = True
+            if e not in rems and e not in inss:
+                o.undecided(f, e.node, e.node, f"{what}: edits the list with `{e.w.kind}`")
+                return
+        if not inss:
+            o.refute(f, f.node, 'insert', f"{what}: never inserts the moved task")
+            return
+        seen_anchor = {}
+        for e in inss:
+            c = e.node
+            if len(c.args) != 2:
+                o.undecided(f, c, c, f"{what}: insert with unexpected arguments")
+                return
+            k, fo = elem_class(a, f, c.args[1], e.cn)
+            if k is None or k[0] == 'other':
+                o.refute(f, c, c, f"{what}: inserts `{src(c.args[1])}`, which is not one of the tasks to move")
+                return
+            if k[0] == 'arg-reordered':
+                o.refute(f, fo, fo.iter, f"{what}: tasks are moved in the order of `{k[1]}(...)`, not in argument order")
+                return
+            if k[0] != 'arg':
+                o.refute(f, fo, fo.iter, f"{what}: the loop moves the tasks of the list itself, not the given ones")
+                return
+            hn = cfg.node_of(fo)
+            idx, idn, _ = resolve(f, c.args[0], e.cn)
+            p = _parse_index(idx)
+            if p is None:
+                if facts.const_num(idx) is not None or (isinstance(idx, ast.Call) and getattr(idx.func, 'id', '') == 'len'):
+                    o.refute(f, c, c.args[0], f"{what}: inserts at the fixed position `{src(idx)}` instead of next to the anchor")
+                else:
+                    o.undecided(f, c, c.args[0], f"{what}: insert position is not `list.index(anchor) + k`")
+                return
+            L, anchor, off = p
+            if not _is_facade_list(a, f, a.xp(f, L, idn)):
+                o.refute(f, c, c.args[0], f"{what}: anchor index is looked up in `{src(L)}`, not in the list being edited")
+                return
+            anchor, _, _ = resolve(f, anchor, idn)
+            if not (isinstance(anchor, ast.Name) and anchor.id in (B, AF)):
+                if isinstance(anchor, ast.Name) and anchor.id == c.args[1].id:
+                    o.refute(f, c, c.args[0], f"{what}: position is the index of the moved task itself")
+                else:
+                    o.undecided(f, c, c.args[0], f"{what}: anchor `{src(anchor)}` is neither `{B}` nor `{AF}`")
+                return
+            want = 0 if anchor.id == B else 1
+            if off != want:
+                o.refute(f, c, c.args[0], f"{what}: inserts at index({anchor.id}) {'+' if off >= 0 else '-'} {abs(off)}; documented: "
+                                          + ("immediately BEFORE the anchor = index(before)" if want == 0 else
+                                             "immediately AFTER the anchor = index(after) + 1"))
+                return
+            atoms = path_atoms(a, f, e.cn)
+            other = AF if anchor.id == B else B
+            s_me, s_other = _none_state(atoms, anchor.id), _none_state(atoms, other)
+            if s_me == 'none' or (s_me is None and s_other == 'set'):
+                o.refute(f, c, c, f"{what}: uses `{anchor.id}` as the anchor on the path where `{anchor.id}` is None / `{other}` is given")
+                return
+            if s_me is None and s_other is None:
+                o.undecided(f, c, c, f"{what}: cannot tell from the conditions which anchor is in force here")
+                return
+            # removal first, in the same iteration, before the index is taken
+            mine = [r for r in rems if isinstance(r.node.args[0] if r.node.args else None, ast.Name)
+                    and r.node.args[0].id == c.args[1].id and enclosing_for_binding(f, r.cn, c.args[1].id) is fo]
+            if not mine:
+                o.refute(f, c, c, f"{what}: the task is inserted without being removed from its old position first: it is listed twice")
+                return
+            if not any(cfg.dominates(r.cn, idn) and cfg.dominates(hn, r.cn) for r in mine):
+                o.refute(f, c, c.args[0], f"{what}: the anchor index is taken BEFORE the task is removed from the list (or the removal "
+                                          f"is conditional): when the task stands before the anchor the position is off by one")
+                return
+            if any(path_atoms(a, f, r.cn, since=hn) for r in mine if cfg.dominates(r.cn, idn)):
+                o.undecided(f, c, c, f"{what}: the removal is conditional")
+                return
+            seen_anchor.setdefault(anchor.id, []).append(e)
+        for nm in (B, AF):
+            if nm not in seen_anchor:
+                o.refute(f, f.node, f'insert for {nm}', f"{what}: no insertion for `{nm}=`: move(..., {nm}=x) removes the task / does nothing")
+                return
+        # every iteration inserts
+        hdrs = {id(enclosing_for_binding(f, e.cn, e.node.args[1].id)) for e in inss}
+        anchors = [guard_anchor(cfg, e.cn, cfg.node_of(enclosing_for_binding(f, e.cn, e.node.args[1].id))) for e in inss]
+        rem_first = [r.cn for r in rems]
+        if not a.must_pass(o, f, anchors, [], what):
+            return
+        for e in seen_anchor[B][:1] + seen_anchor[AF][:1]:
+            o.site(f, e.node, src(e.node))
+        a.leftovers(o, f, what)
+    ctx.guarded(o, run)
+
+
+# ====================================================================================================== sort
+def _attr_getter(e, xname):
+    """x.__getattribute__(K) / getattr(x, K[, default])  ->  K"""
+    if isinstance(e, ast.Call):
+        if isinstance(e.func, ast.Attribute) and e.func.attr in ('__getattribute__', '__getattr__') and len(e.args) == 1 and \
+                isinstance(e.func.value, ast.Name) and e.func.value.id == xname:
+            return e.args[0]
+        if isinstance(e.func, ast.Name) and e.func.id == 'getattr' and len(e.args) in (2, 3) and \
+                isinstance(e.args[0], ast.Name) and e.args[0].id == xname:
+            return e.args[1]
+    return None
+
+
+def _key_kind(keyfn, key_param):
+    """'single' | 'multi' | 'other'"""
+    if not (isinstance(keyfn, ast.Lambda) and len(keyfn.args.args) == 1):
+        return 'other'
+    x = keyfn.args.args[0].arg
+    g = _attr_getter(keyfn.body, x)
+    if g is not None:
+        return 'single' if isinstance(g, ast.Name) and g.id == key_param else 'other'
+    for n in ast.walk(keyfn.body):
+        if isinstance(n, (ast.ListComp, ast.GeneratorExp)) and len(n.generators) == 1:
+            gen = n.generators[0]
+            if isinstance(gen.iter, ast.Name) and gen.iter.id == key_param and isinstance(gen.target, ast.Name) and not gen.ifs:
+                for m in ast.walk(n.elt):
+                    k = _attr_getter(m, x)
+                    if k is not None and isinstance(k, ast.Name) and k.id == gen.target.id:
+                        return 'multi'
+    return 'other'
+
+
+@part
+def sort_stable(a: A, ctx):
+    o = ctx.ob('sort', 'R4',
+               "_ChildrenList.sort: ONE stable sort of the list by the attribute getter of `key` with reverse=reverse (never an "
+               "ascending sort followed by a reversal), and the new list is handed to the owner through the publish callback", floor=2)
+
+    def run(o):
+        f = a.fn('task._ChildrenList.sort')
+        what = 'sort'
+        cfg = cfg_of(f)
+        KEY, REV = f.params[1], f.params[2]
+        evs = a.events(f)
+        pubs = [e for e in evs if e.kind == 'publish']
+        pub_ok = all([_publish_ok(a, o, f, e, what) for e in pubs])
+        ws = [e for e in evs if e.kind == 'write' and e.w.field == LIST and a.is_self(f, e.w.recv)]
+        sorts = []
+        bad = not pub_ok
+        for e in ws:
+            e.used = True
+            w = e.w
+            if w.kind == 'mutate:reverse':
+                o.refute(f, w.node, w.node, f"{what}: the list is reversed as a separate step: equal keys end up in reversed order, a "
+                                            f"descending sort must be `reverse=reverse` of the single stable sort")
+                bad = True
+                continue
+            if w.kind == 'store' and isinstance(w.node, ast.Assign):
+                v = a.xp(f, w.node.value, e.cn)
+                call = v
+                if isinstance(v, ast.Call) and isinstance(v.func, ast.Name) and v.func.id in ('list', 'reversed') and v.args and \
+                        any(isinstance(n, ast.Call) and getattr(n.func, 'id', '') in ('reversed',) for n in ast.walk(v)):
+                    o.refute(f, w.node, w.node.value, f"{what}: `reversed(...)` of a sorted list is not a stable descending sort")
+                    bad = True
+                    continue
+                if isinstance(v, ast.Subscript) and isinstance(v.slice, ast.Slice) and v.slice.step is not None:
+                    o.refute(f, w.node, w.node.value, f"{what}: slicing the sorted list backwards is not a stable descending sort")
+                    bad = True
+                    continue
+                if not (isinstance(v, ast.Call) and isinstance(v.func, ast.Name) and v.func.id == 'sorted' and len(v.args) == 1):
+                    o.undecided(f, w.node, w.node.value, f"{what}: the new list is not `sorted(list, key=..., reverse=...)`")
+                    bad = True
+                    continue
+                srcl = v.args[0]
+                t = norm_list(srcl)
+                s0 = list_source(t) if t[0] in ('ref', 'filter') and not (t[0] == 'filter' and t[3]) else None
+                if not _is_facade_list(a, f, s0):
+                    o.refute(f, w.node, srcl, f"{what}: sorts `{src(srcl)[:60]}` instead of exactly the tasks of the list")
+                    bad = True
+                    continue
+                inplace = False
+            elif w.kind == 'mutate:sort':
+                call = w.node
+                if call.args:
+                    o.undecided(f, call, call, f"{what}: positional arguments to list.sort")
+                    bad = True
+                    continue
+                inplace = True
+            else:
+                o.undecided(f, w.node, w.node, f"{what}: edits the list with `{w.kind}`")
+                bad = True
+                continue
+            kws = {k.arg: k.value for k in call.keywords}
+            rv = kws.get('reverse')
+            if rv is None:
+                o.refute(f, w.node, call, f"{what}: the `reverse` flag is ignored by this sort (no reverse={REV})")
+                bad = True
+                continue
+            rv_r, _, _ = resolve(f, rv, e.cn)
+            if not (isinstance(rv_r, ast.Name) and rv_r.id == REV) and not match(f"bool({REV})", rv_r):
+                o.refute(f, w.node, rv, f"{what}: sorts with reverse=`{src(rv_r)}` instead of the caller's flag")
+                bad = True
+                continue
+            kf = kws.get('key')
+            if kf is None:
+                o.refute(f, w.node, call, f"{what}: sorts without a key: the attribute named by `{KEY}` is ignored")
+                bad = True
+                continue
+            kf_r, _, _ = resolve(f, kf, e.cn)
+            kk = _key_kind(kf_r, KEY)
+            if kk == 'other':
+                g = _attr_getter(kf_r.body, kf_r.args.args[0].arg) if isinstance(kf_r, ast.Lambda) and len(kf_r.args.args) == 1 else None
+                if g is not None:
+                    o.refute(f, w.node, kf, f"{what}: sorts by `{src(g)}` instead of the attribute named by `{KEY}`")
+                else:
+                    o.undecided(f, w.node, kf, f"{what}: key function is not an attribute getter of `{KEY}`")
+                bad = True
+                continue
+            sorts.append((e, inplace, kk))
+        if bad:
+            a.leftovers(o, f, what)
+            return
+        if not sorts:
+            o.refute(f, f.node, 'sorted', f"{what}: the list is never sorted")
+            return
+        for e, inplace, kk in sorts:
+            if not inplace and _reaches_exit_avoiding(cfg, e.cn, {p.cn.id for p in pubs}):
+                o.refute(f, e.node, 'publish', f"{what}: the sorted list is a NEW list object and is not handed to the owner "
+                                               f"(`self.__setter(self._list)` missing on some path): the task's children keep the old order")
+                return
+            # no second sort / reversal after it on the same path is already excluded (mutate:reverse refuted)
+        if not a.must_pass(o, f, [e for e, _, _ in sorts], [], what):
+            return
+        for e, inplace, kk in sorts:
+            o.site(f, e.node, f"{kk} key, reverse={REV}" + (', in place' if inplace else ', published'))
+        a.leftovers(o, f, what)
+    ctx.guarded(o, run)
+
+
+# ====================================================================================================== reorder
+def _local_mutations(f, name):
+    """calls `name.method(...)` on a local list"""
+    out = []
+    for n in walk_no_nested(f.node):
+        if isinstance(n, ast.Call) and isinstance(n.func, ast.Attribute) and isinstance(n.func.value, ast.Name) and \
+                n.func.value.id == name and n.func.attr in LIST_MUT:
+            out.append(n)
+    return out
+
+
+LIST_MUT = ('append', 'remove', 'insert', 'extend', 'pop', 'clear', 'sort', 'reverse', '__iadd__')
+
+
+def _first_match(a: A, f, e, at, idvar):
+    """e picks the FIRST element of the facade's list whose id equals idvar:
+    next(t for t in L if t.id == idvar) / next(iter([...])) / [...][0]     ->  (verdict, source list expr | message)"""
+    e, at, _ = resolve(f, e, at)
+    gen = None
+    if isinstance(e, ast.Call) and isinstance(e.func, ast.Name) and e.func.id == 'next' and len(e.args) >= 1:
+        g = e.args[0]
+        if isinstance(g, ast.Call) and isinstance(g.func, ast.Name) and g.func.id == 'iter' and len(g.args) == 1:
+            g = g.args[0]
+        gen = g
+    elif isinstance(e, ast.Subscript) and not isinstance(e.slice, ast.Slice):
+        i = facts.const_num(e.slice)
+        if i == 0:
+            gen = e.value
+        elif i is not None:
+            return 'refute', f"takes element [{int(i)}] of the matches instead of the first one"
+    if not isinstance(gen, (ast.GeneratorExp, ast.ListComp)) or len(gen.generators) != 1:
+        return 'undecided', "the picked task is not `next(t for t in list if t.id == id)`"
+    g = gen.generators[0]
+    if not (isinstance(g.target, ast.Name) and isinstance(gen.elt, ast.Name) and gen.elt.id == g.target.id):
+        return 'undecided', "the picked task is not an element of the list"
+    t = g.target.id
+    if len(g.ifs) != 1:
+        return ('refute', "the pick is not filtered by id at all") if not g.ifs else ('undecided', "several filter conditions")
+    c, pol = strip_not(g.ifs[0], True)
+    if not (isinstance(c, ast.Compare) and len(c.ops) == 1):
+        return 'undecided', "filter is not a comparison"
+    l, r, op = c.left, c.comparators[0], c.ops[0]
+
+    def is_tid(x):
+        return isinstance(x, ast.Attribute) and x.attr == 'id' and isinstance(x.value, ast.Name) and x.value.id == t
+
+    def is_idvar(x):
+        return isinstance(x, ast.Name) and x.id == idvar
+    if not ((is_tid(l) and is_idvar(r)) or (is_tid(r) and is_idvar(l))):
+        return 'undecided', "filter does not compare the element's id with the requested id"
+    eq = isinstance(op, ast.Eq) == pol if isinstance(op, (ast.Eq, ast.NotEq)) else None
+    if eq is None:
+        return 'undecided', "filter uses an unexpected comparator"
+    if not eq:
+        return 'refute', "picks the first task whose id DIFFERS from the requested id"
+    return 'ok', g.iter
+
+
+@part
+def reorder_effect(a: A, ctx):
+    o = ctx.ob('reorder', 'R8',
+               "_ChildrenList.reorder: new list = [first task with each id, in ids order] + the remaining tasks in their old "
+               "order; picks and rest are built on a copy (the live list is not edited), then stored and published", floor=3)
+
+    def run(o):
+        f = a.fn('task._ChildrenList.reorder')
+        what = 'reorder'
+        cfg = cfg_of(f)
+        IDS = f.params[1]
+        evs = a.events(f)
+        pubs = [e for e in evs if e.kind == 'publish']
+        if not all([_publish_ok(a, o, f, e, what) for e in pubs]):
+            return
+        ws = [e for e in evs if e.kind == 'write' and e.w.field == LIST and a.is_self(f, e.w.recv)]
+        stores = []
+        for e in ws:
+            e.used = True
+            if e.w.kind == 'store' and isinstance(e.w.node, ast.Assign):
+                stores.append(e)
+            elif e.w.kind.startswith('mutate:'):
+                o.refute(f, e.node, e.node, f"{what}: `{src(e.node)[:70]}` edits the LIVE children list (shared with the task) while the new "
+                                            f"order is still being computed; picks and rest must be taken from a copy and the result "
+                                            f"stored + published in one step")
+                return
+            else:
+                o.undecided(f, e.node, e.node, f"{what}: edits the list with `{e.w.kind}`")
+                return
+        if len(stores) != 1:
+            if not stores:
+                o.refute(f, f.node, 'store', f"{what}: the new order is never stored")
+            else:
+                o.undecided(f, stores[1].node, stores[1].node, f"{what}: several stores")
+            return
+        store = stores[0]
+        rhs, rn, _ = resolve(f, store.node.value, store.cn)
+        term = norm_list(rhs)
+        if term[0] != 'concat' or len(term[1]) != 2:
+            o.undecided(f, store.node, store.node.value, f"{what}: new list is not `picks + rest`")
+            return
+
+        def part_kind(p):
+            """('picks', loop, idvar, info) | ('rest', info) | ('?',)"""
+            if p[0] == 'mapped' and isinstance(p[1], ast.ListComp) and len(p[1].generators) == 1:
+                g = p[1].generators[0]
+                if isinstance(g.target, ast.Name) and not g.ifs:
+                    return ('picks-comp', p[1], g)
+            if p[0] == 'filter':
+                return ('rest-comp', p)
+            if p[0] == 'ref' and isinstance(p[1], ast.Name):
+                nm = p[1].id
+                d = flow_of(f).unique_def(nm, rn)
+                if d is None or d.kind != 'assign' or d.value is None:
+                    return ('?',)
+                dv = d.value
+                if isinstance(dv, ast.List) and not dv.elts or match("list()", dv):
+                    return ('picks-loop', nm, d)
+                t = norm_list(dv)
+                if t[0] == 'mapped':
+                    return part_kind(t)
+                if t[0] == 'filter' and t[3]:
+                    return ('rest-comp', t, nm)
+                if t[0] == 'filter':
+                    return ('rest-loop', nm, d, t)
+                if t[0] == 'ref' and _is_facade_list(a, f, dv):
+                    return ('rest-alias', nm, d)
+            if p[0] == 'ref' and _is_facade_list(a, f, p[1]):
+                return ('rest-live',)
+            return ('?',)
+
+        k0, k1 = part_kind(term[1][0]), part_kind(term[1][1])
+        if k0[0].startswith('rest') and k1[0].startswith('picks'):
+            o.refute(f, store.node, store.node.value, f"{what}: the new list is `rest + picks`: the listed ids are put LAST instead of first")
+            return
+        if not (k0[0].startswith('picks') and k1[0].startswith('rest')):
+            o.undecided(f, store.node, store.node.value, f"{what}: cannot identify the picked tasks and the remaining tasks in `{src(rhs)[:60]}`")
+            return
+        # ---- picks
+        pick_names = set()
+        loop = None
+        if k0[0] == 'picks-comp':
+            comp, g = k0[1], k0[2]
+            if not is_arg(a, f, g.iter, rn):
+                kk = classify_list(a, f, g.iter, rn)
+                if kk[0] == 'arg-reordered':
+                    o.refute(f, store.node, g.iter, f"{what}: ids are walked in the order of `{kk[1]}(...)`, not in the given order")
+                else:
+                    o.undecided(f, store.node, g.iter, f"{what}: picks do not range over the given ids")
+                return
+            vd, info = _first_match(a, f, comp.elt, rn, g.target.id)
+            pick_expr = comp
+        else:
+            nm, d = k0[1], k0[2]
+            pick_names.add(nm)
+            muts = _local_mutations(f, nm)
+            apps = [c for c in muts if c.func.attr == 'append']
+            other = [c for c in muts if c.func.attr != 'append']
+            if other:
+                c = other[0]
+                if c.func.attr == 'insert':
+                    o.refute(f, c, c, f"{what}: picked tasks are inserted at a position (`{src(c)}`): they come out in another order than "
+                                      f"the given ids")
+                else:
+                    o.undecided(f, c, c, f"{what}: the list of picked tasks is edited with `{c.func.attr}`")
+                return
+            if len(apps) != 1 or len(apps[0].args) != 1:
+                o.undecided(f, f.node, nm, f"{what}: the picked tasks are not collected by one append per id")
+                return
+            ap = apps[0]
+            apn = cfg.node_containing(ap)
+            fors = cfg.enclosing_fors(apn)
+            if not fors:
+                o.refute(f, ap, ap, f"{what}: only one task is picked (no loop over the ids)")
+                return
+            loop = fors[-1]
+            hn = cfg.node_of(loop)
+            if not (isinstance(loop.target, ast.Name) and is_arg(a, f, loop.iter, hn)):
+                kk = classify_list(a, f, loop.iter, hn)
+                if kk[0] == 'arg-reordered':
+                    o.refute(f, loop, loop.iter, f"{what}: ids are walked in the order of `{kk[1]}(...)`, not in the given order")
+                else:
+                    o.undecided(f, loop, loop.iter, f"{what}: the loop does not range over the given ids")
+                return
+            if path_atoms(a, f, apn, since=hn):
+                o.refute(f, ap, ap, f"{what}: some requested ids are skipped (the pick is conditional)")
+                return
+            vd, info = _first_match(a, f, ap.args[0], apn, loop.target.id)
+            pick_expr = ap.args[0]
+        if vd == 'refute':
+            o.refute(f, store.node, pick_expr, f"{what}: {info}")
+            return
+        if vd == 'undecided':
+            o.undecided(f, store.node, pick_expr, f"{what}: {info}")
+            return
+        src_list = info
+        s_r, s_at, _ = resolve(f, src_list, rn)
+        st = norm_list(s_r)
+        s0 = list_source(st) if st[0] in ('ref', 'filter') and not (st[0] == 'filter' and st[3]) else None
+        if not _is_facade_list(a, f, s0):
+            o.refute(f, store.node, src_list, f"{what}: tasks are picked from `{src(src_list)}`, not from this children list")
+            return
+        o.site(f, store.node, f"picks: first match per id in `{IDS}` order")
+        # ---- rest
+        if k1[0] == 'rest-live' or k1[0] == 'rest-alias':
+            o.refute(f, store.node, store.node.value, f"{what}: the remaining tasks are the live list itself (no copy): the picked tasks "
+                                                      f"are still in it and would be listed twice, or the live list is edited in place")
+            return
+        if k1[0] in ('rest-comp',):
+            t = k1[1]
+            s0 = list_source(('filter', t[1], t[2], []))
+            if not _is_facade_list(a, f, resolve(f, s0, rn)[0]):
+                o.refute(f, store.node, t[1], f"{what}: the remaining tasks are drawn from `{src(t[1])}`, not from this list")
+                return
+            okc = len(t[3]) == 1
+            if okc:
+                c, pol = strip_not(t[3][0], True)
+                okc = isinstance(c, ast.Compare) and len(c.ops) == 1 and isinstance(c.ops[0], ast.NotIn if pol else ast.In) and \
+                    isinstance(c.left, ast.Name) and c.left.id == t[2] and \
+                    ((isinstance(c.comparators[0], ast.Name) and c.comparators[0].id in pick_names) or
+                     (k0[0] == 'picks-comp' and (same(c.comparators[0], k0[1]) or
+                                                 (isinstance(c.comparators[0], ast.Name) and
+                                                  same(resolve(f, c.comparators[0], rn)[0], k0[1])))))
+            if not okc:
+                if len(t[3]) == 1 and mentions_id(t[3][0]):
+                    o.undecided(f, store.node, t[3][0], f"{what}: remaining tasks are selected by id comparison")
+                else:
+                    o.undecided(f, store.node, store.node.value, f"{what}: the remaining tasks are not `[t for t in list if t not in picks]`")
+                return
+            o.site(f, store.node, 'rest: old order, picks filtered out')
+        else:
+            nm, d = k1[1], k1[2]
+            if not _is_facade_list(a, f, list_source(k1[3])):
+                o.refute(f, d.stmt, d.value, f"{what}: the working copy is taken from `{src(d.value)}`, not from this list")
+                return
+            muts = _local_mutations(f, nm)
+            rms = [c for c in muts if c.func.attr == 'remove']
+            other = [c for c in muts if c.func.attr != 'remove']
+            if other:
+                o.undecided(f, other[0], other[0], f"{what}: the working copy is edited with `{other[0].func.attr}`: old order of the rest?")
+                return
+            if not rms:
+                o.refute(f, store.node, store.node.value, f"{what}: picked tasks are never taken out of the working copy: they are listed "
+                                                          f"twice (first and at their old position)")
+                return
+            for c in rms:
+                cn = cfg.node_containing(c)
+                if loop is None or loop not in cfg.enclosing_fors(cn):
+                    o.undecided(f, c, c, f"{what}: removal from the working copy is outside the loop over the ids")
+                    return
+                if path_atoms(a, f, cn, since=cfg.node_of(loop)):
+                    o.refute(f, c, c, f"{what}: a picked task is only conditionally taken out of the rest")
+                    return
+                if not (len(c.args) == 1 and same(resolve(f, c.args[0], cn)[0], resolve(f, pick_expr, cfg.node_containing(pick_expr))[0])):
+                    o.refute(f, c, c, f"{what}: `{src(c)}` takes another task out of the rest than the one that was picked")
+                    return
+            if d.node is not None and loop is not None and not cfg.dominates(d.node, cfg.node_of(loop)):
+                o.undecided(f, d.stmt, d.stmt, f"{what}: the working copy is not taken before the loop")
+                return
+            o.site(f, d.stmt, f"rest: copy `{src(d.stmt)}` minus the picks, old order")
+        # ---- stored unconditionally, published
+        if path_atoms(a, f, store.cn):
+            o.refute(f, store.node, store.node, f"{what}: the new order is stored only conditionally")
+            return
+        if _reaches_exit_avoiding(cfg, store.cn, {p.cn.id for p in pubs}):
+            o.refute(f, store.node, 'publish', f"{what}: the new list object is not handed to the owner (`self.__setter(self._list)` "
+                                               f"missing): the task's children keep the old order")
+            return
+        if a.must_pass(o, f, [store], [], what):
+            o.site(f, store.node, 'stored and published')
+        a.leftovers(o, f, what)
+    ctx.guarded(o, run)
+
+
+# ====================================================================================================== insert
+@part
+def insert_index(a: A, ctx):
+    o = ctx.ob('insert_index', 'R8',
+               "_ChildrenList.insert(i, t): anchor = element i of the list WITHOUT t (None when i >= its length), looked up "
+               "before t is attached; t is attached to the owner (last); then moved immediately before the anchor", floor=3)
+
+    def run(o):
+        f = a.fn('task._ChildrenList.insert')
+        what = 'insert'
+        cfg = cfg_of(f)
+        IDX, T = f.params[1], f.params[2]
+        evs = a.events(f)
+        # ---- attach
+        att = [e for e in evs if (e.kind == 'setter' and e.name == 'parent' and e.stmt is not None) or
+               (e.kind == 'call' and e.name == 'append' and isinstance(e.node, ast.Call) and a.is_self(f, e.node.func.value))]
+        if len(att) != 1:
+            if not att:
+                o.refute(f, f.node, 'attach', f"{what}: the task is never attached to the owner (`task.parent = owner`)")
+            else:
+                o.undecided(f, att[1].node, att[1].node, f"{what}: several attach statements")
+            return
+        at_ev = att[0]
+        at_ev.used = True
+        if at_ev.kind == 'setter':
+            aug, v, st = _store_value(a, f, at_ev)
+            if aug or not a.is_param(f, at_ev.node.value, 2) or not a.is_owner(f, v):
+                o.refute(f, st, st, f"{what}: `{src(st)}` is not `task.parent = owner of the list`")
+                return
+        else:
+            c = at_ev.node
+            if not (len(c.args) == 1 and a.is_param(f, c.args[0], 2)):
+                o.refute(f, c, c, f"{what}: appends `{src(c)}` instead of the inserted task")
+                return
+        if path_atoms(a, f, at_ev.cn):
+            o.refute(f, at_ev.node, at_ev.node, f"{what}: the task is attached only conditionally")
+            return
+        if not a.must_pass(o, f, [at_ev], [], what):
+            return
+        o.site(f, at_ev.stmt or at_ev.node, 'attach: ' + src(at_ev.stmt or at_ev.node))
+        # ---- move before the anchor
+        mv = [e for e in evs if e.kind == 'call' and e.name == 'move' and isinstance(e.node, ast.Call) and a.is_self(f, e.node.func.value)]
+        if len(mv) != 1:
+            if not mv:
+                ins = [e for e in evs if e.kind == 'write' and e.w.kind == 'mutate:insert']
+                if ins:
+                    o.undecided(f, ins[0].node, ins[0].node, f"{what}: positions the task by a raw list insert instead of move()")
+                else:
+                    o.refute(f, f.node, 'move', f"{what}: the task is attached (last) and never moved to the requested index")
+            else:
+                o.undecided(f, mv[1].node, mv[1].node, f"{what}: several move calls")
+            return
+        m_ev = mv[0]
+        m_ev.used = True
+        c = m_ev.node
+        kws = {k.arg: k.value for k in c.keywords}
+        anchor_arg = kws.get('before', c.args[1] if len(c.args) > 1 else None)
+        if not (c.args and a.is_param(f, resolve(f, c.args[0], m_ev.cn)[0], 2)):
+            o.refute(f, c, c, f"{what}: `{src(c)}` moves something else than the inserted task")
+            return
+        if anchor_arg is None:
+            if 'after' in kws or len(c.args) > 2:
+                o.refute(f, c, c, f"{what}: the task is moved AFTER the element found at the index; insert(i) must put it before that "
+                                  f"element (at index i)")
+            else:
+                o.undecided(f, c, c, f"{what}: move call without an anchor")
+            return
+        if 'after' in kws or len(c.args) > 2:
+            o.undecided(f, c, c, f"{what}: move call with both anchors")
+            return
+        if not cfg.can_reach(at_ev.cn, m_ev.cn) or cfg.can_reach(m_ev.cn, at_ev.cn):
+            o.refute(f, c, c, f"{what}: the task is moved before it is attached to this list")
+            return
+        # conditions of the move: only `anchor is not None`
+        for atm, pol, _ in _raw_atoms(f, m_ev.cn):
+            okc = isinstance(anchor_arg, ast.Name) and (
+                (match(f"{anchor_arg.id} is not None", atm) and pol) or (match(f"{anchor_arg.id} is None", atm) and not pol))
+            if not okc:
+                # validation guards (raise on the other side) do not count
+                tst = [t for t, p in cfg.conditions(m_ev.cn) if any(x is atm for x in ast.walk(t))]
+                if tst and is_rejection(cfg, tst[0], pol):
+                    continue
+                o.undecided(f, c, atm, f"{what}: the move depends on a condition the rule does not know")
+                return
+        # ---- anchor
+        an, an_n, hops = resolve(f, anchor_arg, m_ev.cn)
+        if an_n is None:
+            o.undecided(f, c, anchor_arg, f"{what}: anchor has no single definition")
+            return
+        if cfg.can_reach(at_ev.cn, an_n) and an_n is not at_ev.cn:
+            o.refute(f, c, anchor_arg, f"{what}: the anchor is looked up AFTER the task has been attached (it is then the last element "
+                                       f"of the list): index len(list) finds the task itself and earlier indexes are shifted for a task "
+                                       f"that was already in the list")
+            return
+        if not isinstance(an, ast.IfExp):
+            if isinstance(an, ast.Subscript):
+                o.refute(f, c, an, f"{what}: anchor `{src(an)}` has no `index >= len(list)` case: insert at / past the end must append")
+            else:
+                o.undecided(f, c, an, f"{what}: anchor is not `list[index] if index < len(list) else None`")
+            return
+        test, pol = strip_not(an.test, True)
+        body, orelse = (an.body, an.orelse) if pol else (an.orelse, an.body)
+        # normalise the test to  I < len(L)  (True -> subscript branch)
+        cmp_ = None
+        if isinstance(test, ast.Compare) and len(test.ops) == 1:
+            l, op, r = test.left, test.ops[0], test.comparators[0]
+            FLIP = {ast.Lt: ast.Gt, ast.Gt: ast.Lt, ast.LtE: ast.GtE, ast.GtE: ast.LtE}
+            if match("len($l)", l) and type(op) in FLIP:
+                l, r, op = r, l, FLIP[type(op)]()
+            if match("len($l)", r):
+                cmp_ = (l, type(op), match("len($l)", r)['l'])
+        if cmp_ is None:
+            o.undecided(f, c, an.test, f"{what}: anchor test is not a comparison of the index with len(list)")
+            return
+        i_expr, op, L_len = cmp_
+        if op in (ast.GtE, ast.Gt):       # I >= len(L): body is the None branch
+            body, orelse = orelse, body
+            op = {ast.GtE: ast.Lt, ast.Gt: ast.LtE}[op]
+        if op is ast.LtE:
+            o.refute(f, c, an.test, f"{what}: bound test `{src(an.test)}` lets index == len(list) through: off by one at the end of the list")
+            return
+        if op is not ast.Lt:
+            o.undecided(f, c, an.test, f"{what}: unexpected comparator in the anchor test")
+            return
+        if const_of(orelse) is not None:
+            o.refute(f, c, an, f"{what}: past the end the anchor is `{src(orelse)}` instead of None (= plain append)")
+            return
+        if not (isinstance(body, ast.Subscript) and not isinstance(body.slice, ast.Slice)):
+            o.undecided(f, c, an, f"{what}: anchor is not an element of the list")
+            return
+        if not (isinstance(i_expr, ast.Name) and i_expr.id == IDX):
+            o.undecided(f, c, an.test, f"{what}: the bound test is not about `{IDX}`")
+            return
+        if not (isinstance(body.slice, ast.Name) and body.slice.id == IDX):
+            if isinstance(body.slice, ast.BinOp) and IDX in names_in(body.slice):
+                o.refute(f, c, body, f"{what}: anchor is element `{src(body.slice)}`; insert(i) must put the task before element i")
+            else:
+                o.undecided(f, c, body, f"{what}: anchor subscript is not `{IDX}`")
+            return
+        if not same(body.value, L_len):
+            o.refute(f, c, an, f"{what}: the bound is taken on `{src(L_len)}` but the element from `{src(body.value)}`")
+            return
+        L, L_n, _ = resolve(f, body.value, an_n)
+        t = norm_list(L)
+        if t[0] == 'ref' and _is_facade_list(a, f, L):
+            o.refute(f, c, an, f"{what}: the anchor is taken from the list that may still contain the task itself: moving a member "
+                               f"to a later index lands one position too early / on itself")
+            return
+        if t[0] != 'filter' or not _is_facade_list(a, f, list_source(('filter', t[1], t[2], []))):
+            o.undecided(f, c, L, f"{what}: anchor list is not the children list without the task")
+            return
+        kinds = [cmp_kind(cc, t[2], ast.Name(id=T, ctx=ast.Load())) for cc in t[3]] if t[2] else []
+        if kinds != ['ne']:
+            if any(k.startswith('id-') for k in kinds):
+                o.refute(f, c, L, f"{what}: the task is taken out of the anchor list by id comparison instead of identity")
+            elif not kinds:
+                o.refute(f, c, L, f"{what}: the anchor list is a plain copy: it still contains the task itself")
+            elif kinds == ['eq']:
+                o.refute(f, c, L, f"{what}: the anchor list keeps ONLY the task")
+            else:
+                o.undecided(f, c, L, f"{what}: anchor list filter not understood")
+            return
+        if L_n is not None and cfg.can_reach(at_ev.cn, L_n):
+            o.refute(f, c, L, f"{what}: the list without the task is computed after the task was attached")
+            return
+        o.site(f, c, f"anchor = {src(an)[:80]}")
+        # ---- negative index normalisation, when present: like list.insert
+        for d in flow_of(f).defs_of(IDX):
+            if d.kind == 'param':
+                continue
+            okn = d.kind == 'assign' and d.value is not None and (
+                match(f"max(len($l) + {IDX}, 0)", d.value) or match(f"max(0, len($l) + {IDX})", d.value) or
+                match(f"max({IDX} + len($l), 0)", d.value) or match(f"max(0, {IDX} + len($l))", d.value))
+            conds = [(t0, p0) for t0, p0, _ in _raw_atoms(f, d.node)] if d.node is not None else []
+            neg = any((match(f"{IDX} < 0", t0) and p0) or (match(f"{IDX} >= 0", t0) and not p0) or (match(f"0 > {IDX}", t0) and p0)
+                      for t0, p0 in conds)
+            if not okn or not neg or not same(okn['l'], body.value):
+                o.undecided(f, d.stmt, d.stmt, f"{what}: `{IDX}` is rewritten in a way the rule does not know "
+                                               f"(expected: `if {IDX} < 0: {IDX} = max(len(list) + {IDX}, 0)`)")
+                return
+        # ---- after the attach, the move (or its `anchor is not None` test) is always met
+        ga = guard_anchor(cfg, m_ev.cn, at_ev.cn)
+        if _reaches_exit_avoiding(cfg, at_ev.cn, {ga.id}):
+            o.refute(f, c, 'move skipped', f"{what}: after attaching, some path returns without moving the task to the index")
+            return
+        o.site(f, c, src(c))
+        a.leftovers(o, f, what)
+    ctx.guarded(o, run)
+
+
+# ====================================================================================================== frame
+@part
+def frame(a: A, ctx):
+    MUTATORS_TASK = ['task.Task.parent.setter', 'task.Task.children.setter', 'task.Task.predecessors.setter',
+                     'task.Task.successors.setter', 'task.Task._attach', 'task.Task._detach', 'task.Task.__set_children',
+                     'task.Task.__floordiv__', 'task.Task.__lshift__', 'task.Task.__rshift__']
+    MUTATORS_FACADE = ['task._ChildrenList.append', 'task._ChildrenList.remove', 'task._ChildrenList.insert',
+                       'task._ChildrenList.move', 'task._ChildrenList.sort', 'task._ChildrenList.reorder',
+                       'task._PredecessorsList.append', 'task._PredecessorsList.remove', 'task._SuccessorsList.append',
+                       'task._SuccessorsList.remove', 'task._TaskList.remove_all', 'task._ImmutableTaskList.__add__',
+                       'task._ImmutableTaskList.__lshift__', 'task._ImmutableTaskList.__rshift__']
+    MUTATORS_WBS = ['wbs.WBS.roots.setter', 'wbs.WBS.remove', 'wbs.WBS.__remove', 'wbs.WBS.remove_all', 'wbs.WBS.__floordiv__']
+    ALLM = MUTATORS_TASK + MUTATORS_FACADE + MUTATORS_WBS
+    o = ctx.ob('frame', 'R9',
+               "raw relation writes of every mutator hit only: self; the elements of the argument; the elements of the old "
+               "list; the old parent; the new parent - and only the field documented for that receiver; relation-changing "
+               "callees are mutators of this same set (or abstract `remove`), called on self / the owner / arguments / "
+               "their elements", floor=len(ALLM))
+
+    # allowed raw writes per function: field -> receiver classes
+    TABLE = {
+        'task.Task.parent.setter': {'_Task__parent': {'self'}, '_Task__children': {'old-parent', 'new-parent'}},
+        'task.Task.children.setter': {'_Task__children': {'self'}, '_Task__parent': {'old:_Task__children'}},
+        'task.Task.predecessors.setter': {'_Task__predecessors': {'self'},
+                                          '_Task__successors': {'old:_Task__predecessors', 'arg'}},
+        'task.Task.successors.setter': {'_Task__successors': {'self'},
+                                        '_Task__predecessors': {'old:_Task__successors', 'arg'}},
+        'task.Task._attach': {'_Task__wbs': {'self'}},
+        'task.Task._detach': {'_Task__wbs': {'self'}},
+        'task.Task.__set_children': {'_Task__children': {'self'}},
+    }
+
+    def recv_class(f, e):
+        recv = e.w.recv
+        if recv is None:
+            return '?'
+        if a.is_self(f, recv):
+            return 'self'
+        r, rn, _ = resolve(f, recv, e.cn)
+        if a.is_self_attr(f, r, '_Task__parent'):
+            return 'old-parent'
+        if isinstance(recv, ast.Name) and len(f.params) > 1 and recv.id == f.params[1] and f.qual.endswith('parent.setter'):
+            return 'new-parent'
+        k, fo = elem_class(a, f, recv, e.cn)
+        if k is None:
+            return '?'
+        if k[0] in ('arg', 'arg-reordered'):
+            return 'arg'
+        if k[0] in ('live', 'copy'):
+            return 'old:' + k[1]
+        return '?'
+
+    def run(o):
+        mset = {q for q in ALLM}
+        for q in ALLM:
+            f = a.fn(q)
+            ok = True
+            n = 0
+            for e in a.events(f):
+                n += 1
+                if e.kind == 'write':
+                    if f.cls != 'Task':
+                        if not (e.w.field == LIST and a.is_self(f, e.w.recv)):
+                            o.refute(f, e.node, e.node, f"{f.cls}.{f.name} writes `{src(e.node)[:70]}`: a facade may only edit its own "
+                                                        f"`_list`; task relations change through the task's setters")
+                            ok = False
+                        continue
+                    allowed = TABLE.get(q, {})
+                    rc = recv_class(f, e)
+                    if e.w.field not in allowed:
+                        o.refute(f, e.node, e.node, f"{f.name} writes {unmangle(e.w.field)} (`{src(e.node)[:60]}`), which is not a relation "
+                                                    f"this mutator is documented to change")
+                        ok = False
+                    elif rc not in allowed[e.w.field]:
+                        o.refute(f, e.node, e.node,
+                                 f"{f.name} writes {unmangle(e.w.field)} of `{src(e.w.recv)}` ({rc if rc != '?' else 'a task that is neither self, '
+                                 'an element of the argument or of the old list, nor the old / new parent'}); allowed receivers: "
+                                 f"{', '.join(sorted(allowed[e.w.field]))}")
+                        ok = False
+                elif e.kind in ('setter', 'call'):
+                    bad_t = [t.qual for t in e.ci.targets if t is not None and t.qual not in mset
+                             and t.qual != 'task._TaskList.remove'
+                             and any(fld in REL_FIELDS for fld, _ in a.eff.writes_star(t))]
+                    if bad_t:
+                        o.refute(f, e.node, e.node, f"{f.name} calls {', '.join(bad_t)}, which changes task relations and is not one of "
+                                                    f"the documented primitives of this mutator set")
+                        ok = False
+                        continue
+                    recv = e.node.value if e.kind == 'setter' else (
+                        e.node.func.value if isinstance(e.node, ast.Call) and isinstance(e.node.func, ast.Attribute) else
+                        (e.node.left if isinstance(e.node, ast.BinOp) else None))
+                    if recv is not None:
+                        root = a.eff.root_of(recv, f)
+                        if not (root == 'self' or root.startswith('param:') or
+                                (root.startswith('mixed:') and 'unknown' not in root)):
+                            o.refute(f, e.node, e.node, f"{f.name} applies `{src(e.node)[:60]}` to `{src(recv)}`, an object that is neither "
+                                                        f"self / its owner nor an argument (root: {root})")
+                            ok = False
+            if n == 0 and not q.endswith('_ImmutableTaskList.__add__'):
+                o.undecided(f, f.node, f.name, f"no relation event found in mutator {f.name}: the analysis lost track of its effect")
+                ok = False
+            if ok:
+                o.site(f, f.node, f"{n} relation event(s) inside the frame")
     ctx.guarded(o, run)
 
 
